@@ -3,13 +3,14 @@
 spec  : FermiScan.tla -- StaticCalculator.__call__ (non-tetra branch) in integers: extraEf / EFmin / EFmax, band groups in and
         below the scan window (Data_K.get_bands_in_range_groups_ik, Bands.tla), the three branches of the accumulation loop with
         iEf = ceil(...), the finite-difference stencils, k_resolved, select_bands weights; and the declarative meaning: the sea
-        at a level = sum over whole degenerate groups with mean energy <= level, fder = n -> n-th central difference (D1, D2,
-        D1 o D2) of that sea on the extended grid.  MC_FermiScan: every small input, accumulation k-point by k-point.
+        at a level = sum over whole degenerate groups below the level, fder = n -> n-th central difference (D1, D2, D1 o D2) of
+        that sea on the extended grid.  MC_FermiScan: every small input, accumulation k-point by k-point.
 bind  : spec -> code: finished TLC states are replayed on the real StaticCalculator machinery (a subclass that sets Formula / fder
-        like the real calculators, additive and non-additive synthetic formulas, and the real CumDOS / DOS / Identity formula) on
-        a duck-typed data_K that uses the real Data_K.get_bands_in_range_groups; the sea/surface relation and the k-resolved
-        sum are also evaluated between real results.  code -> spec: seeded random larger calls are recorded as integer
-        numerators and validated by TLC against FermiScanRec.tla.
+        like the real calculators; additive, non-additive and rank-1 synthetic formulas; use_factor on and off; the real CumDOS /
+        DOS / Identity formula, also with select_bands) on a duck-typed data_K that lends the methods of the real Data_K; the
+        sea/surface relation and the k-resolved sum are also evaluated between real results.  code -> spec: seeded random
+        larger calls are recorded as integer numerators and validated by TLC against FermiScanRec.tla.  One real wb.run
+        (real Data_K, real formulas) decides the sea/surface relation between real calculators in floating point.
 """
 import copy
 import os
@@ -19,26 +20,36 @@ from fractions import Fraction
 import numpy as np
 
 from .. import tlc, ftable
-from ..common import Report, MachineryError, seed, quiet
-from ._c1314_util import tlc_jobs, validate_parallel
+from ..common import Report, MachineryError, seed, quiet, WORK
+from ._c1314_util import (tlc_jobs, validate_parallel, validate_records, lib_call, run_parts, DuckDataKBase, candidate_finding, uniq,
+                          PrivateGone)
 
 PROPS = {
     "C13": dict(level="model_checking",
                 technique="TLC exhaustive on FermiScan.tla (integer transcription of StaticCalculator.__call__ vs declarative sea / central-"
                           "difference semantics, all small inputs) + replay of finished TLC states on the real StaticCalculator / CumDOS / DOS "
-                          "with a duck-typed data_K + TLC validation of recorded calls",
-                text="TLC checks for every small band structure (<= 4 bands, <= 2 k-points), Fermi grid (spacing, count, offset), threshold, "
-                     "derivative order, k_resolved and band selection that the transcription of the code equals: the sum over whole degenerate "
-                     "groups below the level (sea), the n-th central difference of the sea on the extended grid (surface, n = 1..3; the "
-                     "stencils are exact on polynomials of degree n+1), k-resolved summed = unresolved, CumDOS monotone / 0 below / num_wann "
-                     "above; every selected state is executed on the real calculators and compared with the exact rational; random larger "
-                     "real calls are validated by TLC.",
-                note="energies are integers times 1/8 and Fermi levels multiples of 1/16 or 1/32, values integers, cell volume and constant factor "
-                     "powers of two: all sums are exact in floating point, only the division by dEF^n rounds; comparison relative 1e-9 "
-                     "(observed <= 3e-16). Named exclusion NoTie: no level of the extended Fermi grid coincides with the mean energy of a band "
-                     "group (the bin index is a floating ceil of an integer-valued quotient). select_bands with fder=0 is refused by the code "
-                     "(NotImplementedError) and not exercised; hole_like only flips the sign (no documented semantics) and is not exercised; "
-                     "<= 4 bands when a band selection is used (weights are kept as integers/12).",
+                          "with a duck-typed data_K + TLC validation of recorded calls + one real run (floating point) for the relation",
+                text="TLC checks for every small band structure (quick: <= 3 bands for 1 k-point, 2 bands for 2 k-points; thorough: <= 4 / 3), "
+                     "Fermi grid (spacing, count incl. the single-level call, offset), threshold, derivative order, k_resolved and band "
+                     "selection that the transcription of the code equals: the sum over whole degenerate groups below the level (sea), the "
+                     "n-th central difference of the sea on the extended grid (surface, n = 1..3; the stencils are exact on polynomials of "
+                     "degree n+1), k-resolved summed = unresolved, CumDOS monotone / 0 below / num_wann above. A seeded stratified selection "
+                     "of the finished states (quick ~900 of ~3000) is executed on the real calculators (scalar additive, non-additive and "
+                     "rank-1 synthetic formulas, use_factor on/off, real CumDOS / DOS / Identity also with select_bands) and compared with "
+                     "the exact rational; random larger real calls are validated by TLC; one wb.run on a pythtb Haldane model compares "
+                     "StaticCalculator(Formula, fder=n) with the central differences of fder=0 for the real Identity and Omega formulas "
+                     "(real Data_K; floating point, tolerance 1e-7 relative to the largest value).",
+                note="energies are integers times 1/8 and Fermi levels multiples of 1/8 .. 1/64 (Q = 1..8), values integers, cell volume and "
+                     "constant factor powers of two: all sums are exact in floating point, only the division by dEF^n rounds; comparison "
+                     "relative 1e-9 (observed <= 3e-16). In the single-level class the code's guessed step 0.001 is the grid step; the "
+                     "energy unit is then 0.001*Q/d (not a binary fraction) and the threshold is 0. Named exclusions: NoTie (no level of "
+                     "the extended grid coincides with the mean energy of a band group: floating ceil of an integer-valued quotient) and "
+                     "NoLevelInsideGroup (no level inside the energy span of a group of several bands: at which energy inside its span a "
+                     "group counts as occupied is not demanded; the code uses the mean). select_bands with fder=0 is refused by the code "
+                     "(NotImplementedError) and not exercised; hole_like only flips the sign (no documented semantics) and is not "
+                     "exercised; <= 4 bands when a band selection is used (weights are kept as integers/12). Kramers mode is exercised "
+                     "with an even number of bands; with an odd number the highest band is in no group and CumDOS saturates at "
+                     "num_wann - 1: reported as CANDIDATE-FINDING CumDOS:kramers:odd_num_wann, not a VIOLATION.",
                 ref="DESIGN.md 3.5, 7.2"),
 }
 
@@ -50,6 +61,7 @@ SELUNIT = 12
 WORKERS = int(os.environ.get("VERIF_TLC_WORKERS", "16"))
 INV = ["StepwiseIsScan", "EqualsDeclarative", "SurfaceIsDifferenceOfSea", "KResolvedSumsToUnresolved", "CumDosShape", "NonAdditiveSame", "Stencils"]
 REC_CFG = ftable.REC_CFG
+VEC = np.array([1.0, 2.0, 4.0])
 
 
 def tlaset(xs):
@@ -61,23 +73,24 @@ def cfg_of(constants, invariants):
            "".join(f"INVARIANT {i}\n" for i in invariants) + "CHECK_DEADLOCK FALSE\n"
 
 
-class DuckDataK:
-    """what StaticCalculator.__call__ (non-tetra) and frml.Identity touch; band grouping is the real Data_K code"""
+def unit_of(grid):
+    """energy unit of a replay: 1/8, or for the single-level call the unit in which the code's guessed dEF = 0.001 is d/Q"""
+    return U if grid["n"] > 1 else 0.001 * grid["Q"] / grid["d"]
+
+
+class DuckDataK(DuckDataKBase):
+    """what StaticCalculator.__call__ (non-tetra) and frml.Identity touch; everything else (band grouping) is the real Data_K code"""
     force_internal_terms_only = False
 
-    def __init__(self, Ek):
-        self.E_K = np.array(Ek, dtype=float) * U
+    def __init__(self, Ek, unit=U):
+        self.E_K = np.array(Ek, dtype=float) * unit
         self.nk = self.E_K.shape[0]
         self.num_wann = self.E_K.shape[1]
         self.cell_volume = CELL_VOLUME
 
-    def get_bands_in_range_groups_ik(self, *a, **kw):
-        from wannierberri.data_K.data_K import Data_K
-        return Data_K.get_bands_in_range_groups_ik(self, *a, **kw)
 
-    def get_bands_in_range_groups(self, *a, **kw):
-        from wannierberri.data_K.data_K import Data_K
-        return Data_K.get_bands_in_range_groups(self, *a, **kw)
+class NonPrefixTrace(Exception):
+    """the calculator asked a non-additive formula for the trace over a band set that is not 0..n-1"""
 
 
 class BandFormula:
@@ -100,66 +113,81 @@ class BandFormulaNonAdditive(BandFormula):
     additive = False
 
     def trace(self, ik, inn, out):
-        inn = list(inn)
+        inn = [int(b) for b in inn]
         if inn != list(range(len(inn))):
-            raise MachineryError(f"non-additive formula asked for the trace over {inn}")
+            raise NonPrefixTrace(f"trace over the bands {inn}")
         return np.float64(sum(self.vals[ik][b] for b in inn))
 
 
+class BandFormulaVector(BandFormula):
+    """rank-1 formula: components 1, 2, 4 times the scalar one"""
+    ndim = 1
+
+    def trace(self, ik, inn, out):
+        return VEC * float(sum(self.vals[ik][b] for b in inn))
+
+
+KINDS = {"additive": BandFormula, "nonadditive": BandFormulaNonAdditive, "vector": BandFormulaVector}
 _calc_classes = {}
 
 
-def synth_calculator(additive, fder):
+def synth_calculator(kind, fder):
     """a StaticCalculator subclass built like the real ones (class sets Formula and fder, then StaticCalculator.__init__)"""
     from wannierberri.calculators.static import StaticCalculator
-    key = (additive, fder)
+    key = (kind, fder)
     if key not in _calc_classes:
         class Synth(StaticCalculator):
             def __init__(self, **kwargs):
-                self.Formula = BandFormula if additive else BandFormulaNonAdditive
+                self.Formula = KINDS[kind]
                 self.fder = fder
                 super().__init__(constant_factor=FACTOR, **kwargs)
         _calc_classes[key] = Synth
     return _calc_classes[key]
 
 
-def levels(grid, ext=0):
+def levels(grid, ext=0, unit=U):
     Q, a, d, n = grid["Q"], grid["a"], grid["d"], grid["n"]
-    return np.array([(a + (i - ext) * d) / Q for i in range(n + 2 * ext)], dtype=float) * U
+    return np.array([(a + (i - ext) * d) / Q for i in range(n + 2 * ext)], dtype=float) * unit
 
 
-def run_synth(E, V, th, kr, grid, fder, sel, kres, additive, ext=0):
-    dk = DuckDataK(E)
-    calc = synth_calculator(additive, fder)(Efermi=levels(grid, ext), degen_thresh=th * U, degen_Kramers=kr, k_resolved=kres,
-                                            select_bands=None if sel is None else np.array(sorted(sel), dtype=int),
-                                            kwargs_formula=dict(vals=V))
+def selarr(sel):
+    return None if sel is None else np.array(sorted(sel), dtype=int)
+
+
+def run_synth(E, V, th, kr, grid, fder, sel, kres, kind="additive", ext=0, use_factor=True, unit=None):
+    """-> array [k or 0][level] (kind vector: [..][level][component]) in (value unit)/(integer energy unit)^fder"""
+    unit = unit_of(grid) if unit is None else unit
+    dk = DuckDataK(E, unit)
+    calc = synth_calculator(kind, fder)(Efermi=levels(grid, ext, unit), degen_thresh=th * unit, degen_Kramers=kr, k_resolved=kres,
+                                        select_bands=selarr(sel), kwargs_formula=dict(vals=V), use_factor=use_factor)
     with quiet():
         res = calc(dk)
     data = np.array(res.data, dtype=float)
-    data = data if kres else data[None, :]
-    return data * (CELL_VOLUME / FACTOR) * U ** fder          # exact rescaling: value unit / (integer energy unit)^fder
+    data = data if kres else data[None]
+    return data * (CELL_VOLUME / (FACTOR if use_factor else np.sign(FACTOR))) * unit ** fder     # value unit / (integer energy unit)^fder
 
 
 def run_real_dos(E, th, kr, grid, fder, sel, kres):
     """the real CumDOS (fder 0), DOS (fder 1) calculators, and StaticCalculator(Formula=Identity, fder=2|3)"""
     from wannierberri.calculators.static import CumDOS, DOS, StaticCalculator
     from wannierberri.formula.covariant import Identity
-    dk = DuckDataK(E)
-    kw = dict(Efermi=levels(grid), degen_thresh=th * U, degen_Kramers=kr, k_resolved=kres,
-              select_bands=None if sel is None else np.array(sorted(sel), dtype=int))
+    unit = unit_of(grid)
+    dk = DuckDataK(E, unit)
+    kw = dict(Efermi=levels(grid, 0, unit), degen_thresh=th * unit, degen_Kramers=kr, k_resolved=kres, select_bands=selarr(sel))
     with quiet():
         if fder == 0:
             res = CumDOS(**kw)(dk)
-            name = "CumDOS"
         elif fder == 1:
             res = DOS(**kw)(dk)
-            name = "DOS"
         else:
             res = StaticCalculator(Formula=Identity, fder=fder, **kw)(dk) * dk.cell_volume
-            name = f"StaticCalculator(Identity,fder={fder})"
     data = np.array(res.data, dtype=float)
     data = data if kres else data[None, :]
-    return name, data * U ** fder
+    return data * unit ** fder
+
+
+def real_name(fder):
+    return "CumDOS" if fder == 0 else "DOS" if fder == 1 else f"StaticCalculator(Identity,fder={fder})"
 
 
 def stencil(x, fder, d_over_q):
@@ -184,7 +212,28 @@ def close(got, exp):
 EXTRA = {0: 0, 1: 1, 2: 1, 3: 2}
 
 
-def replay_state(rep, s, cls):
+def py_borders(E, th, kr):
+    """Bands.Borders in Python (choice of admissible random inputs only; TLC checks the clause `admissible` again)"""
+    b = [0] + [i for i in range(1, len(E)) if E[i] - E[i - 1] > th] + [len(E)]
+    if kr:
+        b = [i for i in b if i % 2 == 0]
+    return list(zip(b, b[1:]))
+
+
+def call(rep, site, inputs, fn, *a, **kw):
+    """lib_call + the harness's own signal for a wrong use of a non-additive formula"""
+    try:
+        return lib_call(rep, site, inputs, fn, *a, **kw)
+    except NonPrefixTrace as ex:
+        rep.violation("StaticCalculator:nonadditive:non_prefix_trace",
+                      dict(inputs, what=f"a formula with additive=False was asked for the {ex}: for such formulas only the traces over the "
+                                        "lowest n bands are defined (states below a level), group values are differences of them"))
+        return False, None
+    except PrivateGone as ex:
+        raise MachineryError(f"the duck-typed data_K does not carry the calculator any more: {ex}")
+
+
+def replay_state(rep, s, cls, idx):
     E = [list(x) for x in s["E"]]
     nk, nb = len(E), len(E[0])
     vm = s["vmode"]
@@ -193,71 +242,98 @@ def replay_state(rep, s, cls):
     sel = sorted(s["sel"]["bands"]) if s["sel"]["on"] else None
     exp = np.array([[Fraction(x[0], x[1]) for x in row] for row in s["res"]], dtype=object)
     expf = exp.astype(float)
-    inputs = dict(E=E, unit=U, values=V, th=th, kramers=kr, grid=grid, fder=fder, k_resolved=kres, select_bands=sel)
+    unit = unit_of(grid)
+    inputs = dict(E=E, unit=unit, values=V, th=th, kramers=kr, grid=grid, fder=fder, k_resolved=kres, select_bands=sel)
     key = ("scan", tuple(map(tuple, E)), vm, th, kr, tuple(sorted(grid.items())), fder, kres, tuple(sel) if sel else None)
     nontrivial = bool(np.any(expf != 0))
-    for additive in (True, False):
-        got = run_synth(E, V, th, kr, grid, fder, sel, kres, additive)
-        rep.case(key + (additive,), nontrivial=nontrivial)
-        if not close(got, expf):
-            rep.violation(f"StaticCalculator:fder{fder}:" + ("additive" if additive else "nonadditive") + (":k_resolved" if kres else "") + (":select_bands" if sel else ""),
-                          dict(inputs, expected=[[str(x) for x in row] for row in exp], got=got.tolist(),
-                               note="values in (value unit)/(energy unit = 1/8)^fder, after removing constant factor and cell volume"))
+    tag = (":k_resolved" if kres else "") + (":select_bands" if sel else "") + (":single_level" if grid["n"] == 1 else "")
+    expstr = [[str(x) for x in row] for row in exp]
+    note = "values in (value unit)/(energy unit)^fder, after removing constant factor and cell volume"
+    got = None
+    for kind in ("additive", "nonadditive", "vector"):
+        ok, g = call(rep, f"StaticCalculator:{kind}", inputs, run_synth, E, V, th, kr, grid, fder, sel, kres, kind)
+        rep.case(key + (kind,), nontrivial=nontrivial)
+        if not ok:
+            continue
+        want = expf[..., None] * VEC if kind == "vector" else expf
+        if not close(g, want):
+            rep.violation(f"StaticCalculator:fder{fder}:{kind}" + tag, dict(inputs, expected=expstr, got=g.tolist(), note=note))
+        if kind == "additive":
+            got = g
+    if idx % 3 == 0:
+        ok, g = call(rep, "StaticCalculator:use_factor_false", inputs, run_synth, E, V, th, kr, grid, fder, sel, kres, "additive", use_factor=False)
+        rep.case(key + ("nofactor",), nontrivial=nontrivial)
+        cls["use_factor_false"] += 1
+        if ok and not close(g, expf):
+            rep.violation(f"StaticCalculator:fder{fder}:use_factor_false" + tag, dict(inputs, expected=expstr, got=g.tolist(),
+                                                                                      note="use_factor=False: only the sign of the constant factor is applied"))
     cls["fder%d" % fder] += 1
     cls["kres"] += kres
     cls["select"] += sel is not None
     cls["kramers"] += kr
-    for b in s["taken"]:
-        cls["branch_" + b] += 1
-    got = run_synth(E, V, th, kr, grid, fder, sel, kres, True)
+    cls["single_level"] += grid["n"] == 1
+    cls["single_level_nonzero"] += grid["n"] == 1 and nontrivial
+    cls["wide_group"] += any(Ek[b - 1] > Ek[a] for Ek in E for a, b in py_borders(Ek, th, kr))
+    for b in s["taken"]:          # "above" needs EFmax inside the span of a group: excluded by NoLevelInsideGroup
+        cls["branch_" + b] = cls.get("branch_" + b, 0) + 1
     # relation between two real calculations: fder=n vs central difference of fder=0 on the extended grid
-    if fder > 0 and sel is None:
-        sea = run_synth(E, V, th, kr, grid, 0, None, kres, True, ext=EXTRA[fder])
-        fd = stencil(sea, fder, grid["d"] / grid["Q"])
-        rep.case(key + ("fd",), nontrivial=nontrivial)
-        if not close(got, fd):
-            rep.violation(f"StaticCalculator:fder{fder}:vs_difference_of_sea", dict(inputs, sea_on_extended_grid=sea.tolist(), difference=fd.tolist(), got=got.tolist()))
-        cls["fd_relation"] += 1
-    if kres:
-        un = run_synth(E, V, th, kr, grid, fder, sel, False, True)
-        rep.case(key + ("ksum",), nontrivial=nontrivial)
-        if not close(got.sum(axis=0)[None, :] / nk, un):
-            rep.violation(f"StaticCalculator:fder{fder}:k_resolved_sum", dict(inputs, k_resolved=got.tolist(), unresolved=un.tolist()))
+    if got is not None and fder > 0 and sel is None:
+        ok, sea = call(rep, "StaticCalculator:additive", inputs, run_synth, E, V, th, kr, grid, 0, None, kres, "additive", ext=EXTRA[fder], unit=unit)
+        if ok:
+            fd = stencil(sea, fder, grid["d"] / grid["Q"])
+            rep.case(key + ("fd",), nontrivial=nontrivial)
+            if not close(got, fd):
+                rep.violation(f"StaticCalculator:fder{fder}:vs_difference_of_sea", dict(inputs, sea_on_extended_grid=sea.tolist(), difference=fd.tolist(), got=got.tolist()))
+            cls["fd_relation"] += 1
+    if got is not None and kres:
+        ok, un = call(rep, "StaticCalculator:additive", inputs, run_synth, E, V, th, kr, grid, fder, sel, False, "additive")
+        if ok:
+            rep.case(key + ("ksum",), nontrivial=nontrivial)
+            if not close(got.sum(axis=0)[None, :] / nk, un):
+                rep.violation(f"StaticCalculator:fder{fder}:k_resolved_sum", dict(inputs, k_resolved=got.tolist(), unresolved=un.tolist()))
     if vm == "ones":
-        name, gd = run_real_dos(E, th, kr, grid, fder, sel, kres)
+        name = real_name(fder)
+        ok, gd = call(rep, name, inputs, run_real_dos, E, th, kr, grid, fder, sel, kres)
         rep.case(key + ("real",), nontrivial=nontrivial)
         cls["real_" + ("CumDOS" if fder == 0 else "DOS" if fder == 1 else "Identity")] += 1
-        if not close(gd, expf):
-            rep.violation(f"{name}" + (":k_resolved" if kres else ""), dict(inputs, expected=[[str(x) for x in row] for row in exp], got=gd.tolist()))
-        if fder == 0 and not kres:
+        cls["real_select"] += sel is not None
+        if ok and not close(gd, expf):
+            rep.violation(name + tag, dict(inputs, expected=expstr, got=gd.tolist()))
+        if ok and fder == 0 and not kres and gd.shape == expf.shape:
             lv = [Fraction(grid["a"] + i * grid["d"], grid["Q"]) for i in range(grid["n"])]
             lo = min(min(e) for e in E)
             hi = max(max(e) for e in E)
             for i, x in enumerate(lv):
-                if x < lo and gd[0, i] != 0.0:
+                if x < lo and abs(gd[0, i]) > 1e-12:
                     rep.violation("CumDOS:below_all_bands", dict(inputs, level=i, got=float(gd[0, i])))
-                if x > hi and gd[0, i] != float(nb):
+                if x > hi and abs(gd[0, i] - nb) > 1e-12:
                     rep.violation("CumDOS:above_all_bands", dict(inputs, level=i, got=float(gd[0, i]), num_wann=nb))
-            if np.any(np.diff(gd[0]) < 0):
+            if np.any(np.diff(gd[0]) < -1e-12):
                 rep.violation("CumDOS:monotone", dict(inputs, got=gd.tolist()))
     return inputs, exp
 
 
-def part_model(rep, thorough, rng):
+def model_runs(thorough):
+    """(name, constants, number of replays).  a = x - ASHIFT for x in AS1; odd a with Q = 2 and d = 4 puts consecutive levels on both
+    sides of a group of two adjacent energies (NoLevelInsideGroup keeps those)"""
     if thorough:
-        runs = [("c13_nk1", dict(NK=1, NBS="{1, 2, 3, 4}", EMAX=4, THS="{0, 2}", QS="{2, 4}", AS1=tlaset([0, 11]), ASHIFT=5,
-                                 DS="{1, 3}", NS="{3, 6}", SELS="{{}, {0}, {1, 2}, {0, 3}}", WrongBinning="FALSE"), 5000),
-                ("c13_nk1b", dict(NK=1, NBS="{1, 2, 3, 4}", EMAX=3, THS="{1}", QS="{2}", AS1=tlaset([0, 5, 11]), ASHIFT=4,
-                                  DS="{2}", NS="{4, 5}", SELS="{{}, {1}, {2, 3}}", WrongBinning="FALSE"), 2000),
-                ("c13_nk2", dict(NK=2, NBS="{1, 2, 3}", EMAX=2, THS="{0, 1}", QS="{2}", AS1=tlaset([0, 7]), ASHIFT=4,
-                                 DS="{1, 3}", NS="{4}", SELS="{{}, {1}, {0, 2}}", WrongBinning="FALSE"), 4000)]
-    else:
-        runs = [("c13_nk1", dict(NK=1, NBS="{1, 2, 3, 4}", EMAX=3, THS="{0, 1}", QS="{2}", AS1=tlaset([0, 9]), ASHIFT=3,
-                                 DS="{1, 3}", NS="{3, 6}", SELS="{{}, {0}, {1, 2}}", WrongBinning="FALSE"), 700),
-                ("c13_nk2", dict(NK=2, NBS="{2}", EMAX=2, THS="{0, 1}", QS="{4}", AS1=tlaset([0, 5, 9]), ASHIFT=3,
-                                 DS="{2}", NS="{4}", SELS="{{}, {1}}", WrongBinning="FALSE"), 500)]
-    cls = {k: 0 for k in ["fder0", "fder1", "fder2", "fder3", "kres", "select", "kramers", "branch_below", "branch_bin", "branch_above", "branch_seagroup",
-                          "fd_relation", "real_CumDOS", "real_DOS", "real_Identity"]}
+        return [("c13_nk1", dict(NK=1, NBS="{1, 2, 3, 4}", EMAX=4, THS="{0, 2}", QS="{2, 4}", AS1=tlaset([0, 11]), ASHIFT=5,
+                                 DS="{1, 6}", NS="{1, 3, 6}", SELS="{{}, {0}, {1, 2}, {0, 3}}", WrongBinning="FALSE"), 5000),
+                ("c13_nk1b", dict(NK=1, NBS="{1, 2, 3, 4}", EMAX=3, THS="{1}", QS="{2}", AS1=tlaset([1, 6, 11]), ASHIFT=4,
+                                  DS="{1, 4}", NS="{1, 4, 5}", SELS="{{}, {1}, {2, 3}}", WrongBinning="FALSE"), 2500),
+                ("c13_nk2", dict(NK=2, NBS="{1, 2, 3}", EMAX=2, THS="{0, 1}", QS="{2}", AS1=tlaset([1, 7]), ASHIFT=4,
+                                 DS="{1, 4}", NS="{1, 4}", SELS="{{}, {1}, {0, 2}}", WrongBinning="FALSE"), 4000)]
+    return [("c13_nk1", dict(NK=1, NBS="{1, 2, 3}", EMAX=2, THS="{0, 1}", QS="{2}", AS1=tlaset([0, 5]), ASHIFT=3,
+                             DS="{1, 4}", NS="{1, 4}", SELS="{{}, {0}, {1, 2}}", WrongBinning="FALSE"), 600),
+            ("c13_nk2", dict(NK=2, NBS="{2}", EMAX=1, THS="{0, 1}", QS="{4}", AS1=tlaset([2]), ASHIFT=3,
+                             DS="{6}", NS="{1, 3}", SELS="{{}, {1}}", WrongBinning="FALSE"), 300)]
+
+
+def part_model(rep, thorough, rng):
+    runs = model_runs(thorough)
+    cls = {k: 0 for k in ["fder0", "fder1", "fder2", "fder3", "kres", "select", "kramers", "branch_below", "branch_bin", "branch_seagroup",
+                          "fd_relation", "real_CumDOS", "real_DOS", "real_Identity", "real_select", "use_factor_false", "single_level",
+                          "single_level_nonzero", "wide_group"]}
     # sensitivity: binning with floor instead of ceil must be rejected by TLC
     sens = dict(NK=1, NBS="{1, 2}", EMAX=2, THS="{0}", QS="{2}", AS1="{0, 2}", ASHIFT=3, DS="{2}", NS="{3}", SELS="{{}}", WrongBinning="TRUE")
     jobs = {name: ("MC_FermiScan.tla", cfg_of(consts, INV), True) for name, consts, _ in runs}
@@ -270,25 +346,24 @@ def part_model(rep, thorough, rng):
     for name, consts, nreplay in runs:
         st = res[name]
         ftable.spec_violation(rep, st, name)
-        tlc.check_not_vacuous(st, ["Accumulate", "Differences"], name)
         rep.add_tlc(name, st)
         done = [s for s in ftable.dump_states(st) if s["pc"] == "done"]
-        if not done:
+        if not done:      # finished states are reached through Accumulate (once per k-point) and Differences only: non-vacuity of both actions
             raise MachineryError(f"no finished state in the dump of {name}")
-        # deterministic selection: stratified by (fder, kres, select, vmode), seeded
+        # deterministic selection: stratified by (fder, kres, select, vmode, kramers, single level), seeded
         done.sort(key=lambda s: repr((s["E"], s["vmode"], s["th"], s["kr"], sorted(s["grid"].items()), s["fder"], s["sel"]["on"],
                                        sorted(s["sel"]["bands"]), s["kres"])))
         rng.shuffle(done)
         strata = {}
         for s in done:
-            strata.setdefault((s["fder"], s["kres"], s["sel"]["on"], s["vmode"], s["kr"]), []).append(s)
+            strata.setdefault((s["fder"], s["kres"], s["sel"]["on"], s["vmode"], s["kr"], s["grid"]["n"] == 1), []).append(s)
         chosen = []
         while len(chosen) < min(nreplay, len(done)):
             for k in sorted(strata):
                 if strata[k]:
                     chosen.append(strata[k].pop())
         for i, s in enumerate(chosen):
-            inputs, exp = replay_state(rep, s, cls)
+            inputs, exp = replay_state(rep, s, cls, i)
             if i < 2:
                 rep.sample(dict(fn="StaticCalculator.__call__", **inputs, exact=[[str(x) for x in row] for row in exp]))
         rep.part(name + "_replay", finished_states=len(done), replayed=len(chosen))
@@ -298,7 +373,25 @@ def part_model(rep, thorough, rng):
     rep.part("c13_replay_classes", **cls)
 
 
-def integral(x, what):
+def part_kramers_odd(rep):
+    """candidate finding (not excluded silently): degen_Kramers=True with an odd number of Wannier functions"""
+    E, grid = [[0, 1, 2]], dict(Q=1, a=-1, d=2, n=3)          # levels -1, 1, 3 (units 1/8): the last one is above all bands
+    try:
+        gd = run_real_dos(E, 0, True, grid, 0, None, False)
+    except Exception as ex:
+        rep.part("kramers_odd_num_wann", not_evaluated=f"{type(ex).__name__}: {str(ex)[:200]}")
+        return
+    if abs(gd[0, -1] - 3) > 1e-12:
+        candidate_finding(rep, "CumDOS:kramers:odd_num_wann",
+                          dict(call="CumDOS(Efermi=[-0.125, 0.125, 0.375], degen_thresh=0, degen_Kramers=True) on one k-point with E_K = [0, 0.125, 0.25]",
+                               got=gd[0].tolist(), expected_above_all_bands=3,
+                               cause="get_borders(degen_Kramers=True) keeps even borders only and drops len(E) when it is odd: the highest band is in no group",
+                               statement="the cumulative DOS equals the number of Wannier functions above all bands"))
+    else:
+        rep.part("kramers_odd_num_wann", cumdos_saturates_at_num_wann=True)
+
+
+def integral(x):
     r = np.rint(x)
     if np.any(np.abs(x - r) > 1e-6 * np.maximum(1.0, np.abs(r))):
         return None
@@ -307,16 +400,18 @@ def integral(x, what):
 
 def part_records(rep, thorough, rng):
     recs = []
-    nrec = 1500 if thorough else 240
-    stats = dict(kramers=0, select=0, fder0=0, fder3=0, nonadditive=0)
+    nrec = 1500 if thorough else 180
+    stats = dict(kramers=0, select=0, fder0=0, fder3=0, nonadditive=0, single_level=0, wide_group=0)
     tries = 0
+    nonint = 0
     while len(recs) < nrec:
         tries += 1
-        if tries > 50 * nrec:
+        if tries > 80 * nrec:
             raise MachineryError("record generator cannot find admissible inputs")
         nk = rng.randint(1, 3)
         nb = rng.randint(1, 4)
-        th = rng.choice([0, 1, 2, 3])
+        single = rng.random() < 0.12
+        th = 0 if single else rng.choice([0, 1, 2, 3])
         kr = nb % 2 == 0 and rng.random() < 0.3
         E = []
         for _ in range(nk):
@@ -331,37 +426,46 @@ def part_records(rep, thorough, rng):
         V = [[rng.randint(-20, 20) for _ in range(nb)] for _ in range(nk)]
         fder = rng.randint(0, 3)
         Q = rng.choice([1, 2, 4, 8])
-        grid = dict(Q=Q, a=rng.randint(-6 * Q, 40 * Q), d=rng.randint(1, 3 * Q), n=rng.randint(1, 12))
-        if grid["n"] == 1:
-            continue       # a single level makes the code guess dEF = 0.001: not a uniform grid of the model
+        grid = dict(Q=Q, a=rng.randint(-6 * Q, 40 * Q), d=rng.randint(1, 3 * Q), n=1 if single else rng.randint(2, 12))
+        if single:
+            # put the level next to a band so that the single-level result is not trivially zero
+            e0 = rng.choice(rng.choice(E))
+            grid["a"] = e0 * Q + rng.choice([-1, 1]) * rng.randint(1, max(1, grid["d"] - 1))
         sel = None
         if fder > 0 and rng.random() < 0.3:
             sel = sorted(rng.sample(range(nb), rng.randint(1, nb)))
         additive = rng.random() < 0.6
-        # named exclusion NoTie (checked again by TLC: clause admissible)
+        # named exclusions NoTie / NoLevelInsideGroup (checked again by TLC: clause admissible)
         ex = EXTRA[fder]
         lv = [Fraction(grid["a"] + (i - ex) * grid["d"], Q) for i in range(grid["n"] + 2 * ex)]
-        from wannierberri.grid.tetrahedron import get_borders
-        tie = False
+        bad_level = wide = False
         for Ek in E:
-            for a, b in get_borders(np.array(Ek, dtype=float), th, degen_Kramers=kr):
-                if Fraction(sum(Ek[a:b]), b - a) in lv:
-                    tie = True
-        if tie:
+            for a, b in py_borders(Ek, th, kr):
+                if Fraction(sum(Ek[a:b]), b - a) in lv or (b - a > 1 and any(Ek[a] <= x <= Ek[b - 1] for x in lv)):
+                    bad_level = True
+                wide = wide or Ek[b - 1] > Ek[a]
+        if bad_level:
             continue
+        inputs = dict(E=E, values=V, th=th, kramers=kr, grid=grid, fder=fder, select_bands=sel, unit=unit_of(grid))
         outs = {}
         bad = False
         for kres in (True, False):
-            got = run_synth(E, V, th, kr, grid, fder, sel, kres, additive)
+            ok, got = call(rep, "StaticCalculator:" + ("additive" if additive else "nonadditive"), dict(inputs, k_resolved=kres),
+                           run_synth, E, V, th, kr, grid, fder, sel, kres, "additive" if additive else "nonadditive")
+            if not ok:
+                bad = True
+                break
             cn = {0: 1, 1: 2, 2: 1, 3: 2}[fder]
             N = got * SELUNIT * cn * (grid["d"] / Q) ** fder * (1 if kres else nk)
-            Ni = integral(N, "numerators")
+            Ni = integral(N) if N.ndim == 2 else None
             if Ni is None:
-                rep.violation(f"StaticCalculator:fder{fder}:nonintegral", dict(E=E, values=V, th=th, kramers=kr, grid=grid, fder=fder, select_bands=sel,
-                                                                              k_resolved=kres, got=got.tolist(), numerators=N.tolist()))
+                nonint += 1
+                rep.violation(f"StaticCalculator:fder{fder}:nonintegral", dict(inputs, k_resolved=kres, got=got.tolist(), numerators=N.tolist()))
                 bad = True
             outs[kres] = Ni
         if bad:
+            if nonint > 200:
+                break           # a systematic deviation: the violations are recorded, TLC validation of the rest adds nothing
             continue
         recs.append(dict(E=E, V=V, th=th, kr=kr, grid=grid, fder=fder, selon=sel is not None, sel=sel or [], additive=additive,
                          outK=outs[True], outU=outs[False][0]))
@@ -370,69 +474,99 @@ def part_records(rep, thorough, rng):
         stats["fder0"] += fder == 0
         stats["fder3"] += fder == 3
         stats["nonadditive"] += not additive
+        stats["single_level"] += single
+        stats["wide_group"] += wide
         rep.case(("rec", len(recs), tuple(map(tuple, E)), fder, tuple(sorted(grid.items()))))
-    for k, v in stats.items():
-        if v == 0:
-            raise MachineryError(f"vacuous record class {k}")
-    stv, bad = validate_parallel("FermiScanRec.tla", REC_CFG, recs, "c13", 8)
+    if not recs:
+        return
+    if not rep.violations:
+        for k, v in stats.items():
+            if v == 0:
+                raise MachineryError(f"vacuous record class {k}")
+    stv, bad = validate_parallel("FermiScanRec.tla", REC_CFG, recs, "c13", 3)
     rep.add_tlc("c13_records", stv)
     rep.add_traces(len(recs))
     rep.part("c13_records", **stats)
-    for i, clauses in bad.items():
+    for i, clauses in sorted(bad.items()):
         r = recs[i]
         if "admissible" in clauses:
             raise MachineryError(f"the harness recorded an inadmissible input: {r}")
-        rep.violation(f"StaticCalculator:fder{r['fder']}:recorded" + (":select_bands" if r["selon"] else ""),
-                      dict(record=r, failing_clauses=clauses, unit=U, note="out* = result * 12 * c_n * dEF^n * (nk if unresolved) in integer units"))
+        rep.violation(f"StaticCalculator:fder{r['fder']}:recorded" + (":select_bands" if r["selon"] else "") + (":single_level" if r["grid"]["n"] == 1 else ""),
+                      dict(record=r, failing_clauses=clauses, unit=unit_of(r["grid"]),
+                           note="out* = result * 12 * c_n * dEF^n * (nk if unresolved) in integer units"))
     rep.sample(recs[0])
     cand = [r for r in recs if any(any(row) for row in r["outK"])][:1]
     if not cand:
         raise MachineryError("no non-zero record for the binding self-test")
     b = copy.deepcopy(cand)
-    row = next(j for j, rw in enumerate(b[0]["outK"]) if any(rw))
-    col = next(j for j, x in enumerate(b[0]["outK"][row]) if x)
+    row = next((j for j, rw in enumerate(b[0]["outK"]) if any(rw)), 0)
+    col = next((j for j, x in enumerate(b[0]["outK"][row]) if x), 0)
     b[0]["outK"][row][col] += SELUNIT
-    _, b2 = ftable.validate_records("FermiScanRec.tla", REC_CFG, b, "c13_selftest")
+    _, b2 = validate_records("FermiScanRec.tla", REC_CFG, b, "c13_selftest")
     if 0 not in b2:
         raise MachineryError("binding self-test failed: corrupted StaticCalculator record accepted")
     rep.part("binding_selftest", corrupted_record_rejected=b2[0])
 
 
-def part_numeric(rep, thorough):
-    """numeric_only: real wb.run on a tiny tight-binding model (Haldane); StaticCalculator(Formula, fder=n) vs central differences of
-    StaticCalculator(Formula, fder=0) on the extended grid, for real formulas. Reported, never decides the check."""
+REAL_RTOL = 1e-7        # >= 1e4 x the deviation observed on the unchanged tree (see PROPS note / evidence part real_run)
+
+
+def part_real_run(rep):
+    """one real wb.run on a tiny tight-binding model (pythtb Haldane): real Data_K, real formulas (Identity: additive,
+    Omega: Berry curvature).  StaticCalculator(Formula, fder=n) against the n-th central difference of StaticCalculator(Formula,
+    fder=0) evaluated on the grid extended by two points.  The Fermi grid is a binary fraction (step 1/8, offset -2.51171875), so
+    both calculators bin every state between the same exactly representable edges and differ by rounding of sums only."""
     import shutil
-    wd = os.path.join("/verif/.work", "c13_num")
+    wd = os.path.join(WORK, uniq("c13_real"))
     try:
-        import wannierberri as wb
-        import wannierberri.models
-        from wannierberri.calculators.static import StaticCalculator
-        from wannierberri.formula import covariant as frml
+        try:
+            import wannierberri as wb
+            import wannierberri.models
+            from wannierberri.calculators.static import StaticCalculator
+            from wannierberri.formula import covariant as frml
+            formulas = (("Identity", frml.Identity), ("Omega", frml.Omega))
+        except (ImportError, AttributeError) as ex:
+            rep.part("real_run", skipped=f"{type(ex).__name__}: {str(ex)[:200]}")
+            return
         os.makedirs(wd, exist_ok=True)
         h, n, e0 = 0.125, 12, -2.51171875
         ef = np.arange(n) * h + e0
+        efx = np.arange(-2, n + 2) * h + e0
+        calcs = {}
+        for fname, F in formulas:
+            calcs[f"{fname}_sea"] = StaticCalculator(Efermi=efx, Formula=F, fder=0, degen_thresh=1e-6)
+            for fder in (1, 2, 3):
+                calcs[f"{fname}_{fder}"] = StaticCalculator(Efermi=ef, Formula=F, fder=fder, degen_thresh=1e-6)
+
+        def run():
+            with quiet():
+                system = wb.system.System_R.from_pythtb(wb.models.Haldane_ptb(delta=0.2, hop1=-1.0, hop2=0.15), berry=True)
+                grid = wb.Grid(system, NK=[6, 6, 1], NKFFT=[3, 3, 1])
+                return wb.run(system, grid=grid, calculators=calcs, adpt_num_iter=0, use_irred_kpt=False, symmetrize=False,
+                              fout_name=os.path.join(wd, "x"), dump_results=False, parallel=False)
+        ok, res = lib_call(rep, "run:StaticCalculator", dict(model="Haldane_ptb(delta=0.2, hop1=-1, hop2=0.15)", NK=[6, 6, 1], Efermi=ef.tolist()), run)
+        if not ok:
+            return
         worst = {}
-        with quiet():
-            system = wb.system.System_R.from_pythtb(wb.models.Haldane_ptb(delta=0.2, hop1=-1.0, hop2=0.15), berry=True)
-            grid = wb.Grid(system, NK=[6, 6, 1], NKFFT=[3, 3, 1])
-            for fname, F in (("Identity", frml.Identity), ("Omega", frml.Omega)):
-                for fder in (1, 2, 3):
-                    ex = EXTRA[fder]
-                    efx = np.arange(-ex, n + ex) * h + e0
-                    calcs = {"s": StaticCalculator(Efermi=efx, Formula=F, fder=0, degen_thresh=1e-6),
-                             "d": StaticCalculator(Efermi=ef, Formula=F, fder=fder, degen_thresh=1e-6)}
-                    res = wb.run(system, grid=grid, calculators=calcs, adpt_num_iter=0, use_irred_kpt=False, symmetrize=False,
-                                 fout_name=os.path.join(wd, "x"), dump_results=False, parallel=False)
-                    sea = np.moveaxis(np.asarray(res.results["s"].data), 0, -1)
-                    fd = stencil(sea.reshape(-1, sea.shape[-1]), fder, h).reshape(sea.shape[:-1] + (n,))
-                    d = np.moveaxis(np.asarray(res.results["d"].data), 0, -1)
-                    scale = float(np.max(np.abs(d)))
-                    worst[f"{fname}_fder{fder}"] = dict(max_abs=scale, deviation=float(np.max(np.abs(d - fd))))
-        rep.part("numeric_only", real_run_fder_vs_central_difference_of_fder0=worst,
-                 agree=bool(all(v["deviation"] <= 1e-9 * max(1.0, v["max_abs"]) for v in worst.values())),
-                 nonzero=bool(all(v["max_abs"] > 1e-3 for v in worst.values())))
-    except Exception as ex:      # numeric-only, optional: never decides the check
-        rep.part("numeric_only", skipped=f"{type(ex).__name__}: {str(ex)[:200]}")
+        for fname, _ in formulas:
+            sea = np.moveaxis(np.asarray(res.results[f"{fname}_sea"].data), 0, -1)          # [..., level of the extended grid]
+            for fder in (1, 2, 3):
+                ex = EXTRA[fder]
+                seax = sea[..., 2 - ex:sea.shape[-1] - (2 - ex)]
+                fd = stencil(seax.reshape(-1, seax.shape[-1]), fder, h).reshape(seax.shape[:-1] + (n,))
+                d = np.moveaxis(np.asarray(res.results[f"{fname}_{fder}"].data), 0, -1)
+                scale = float(np.max(np.abs(d)))
+                dev = float(np.max(np.abs(d - fd)))
+                worst[f"{fname}_fder{fder}"] = dict(max_abs=scale, deviation=dev)
+                rep.case(("real_run", fname, fder), nontrivial=scale > 1e-3)
+                if d.shape != fd.shape or dev > REAL_RTOL * max(1.0, scale):
+                    rep.violation(f"real_run:{fname}:fder{fder}:vs_difference_of_sea",
+                                  dict(model="pythtb Haldane(delta=0.2, hop1=-1, hop2=0.15), NK=6x6x1", Efermi=ef.tolist(), formula=fname, fder=fder,
+                                       max_abs=scale, deviation=dev, tolerance=REAL_RTOL * max(1.0, scale),
+                                       got=np.ravel(d)[:24].tolist(), difference_of_sea=np.ravel(fd)[:24].tolist()))
+        if not all(v["max_abs"] > 1e-3 for v in worst.values()):
+            raise MachineryError(f"the real run gives vanishing surface terms: {worst}")
+        rep.part("real_run", fder_vs_central_difference_of_fder0=worst, relative_tolerance=REAL_RTOL)
     finally:
         shutil.rmtree(wd, ignore_errors=True)
 
@@ -442,19 +576,25 @@ def check(pid, tier):
     thorough = tier == "thorough"
     rng = random.Random(seed() * 7919 + 13)
     rep.rule("TLC enumerates every band structure / Fermi grid / threshold / fder / k_resolved / select_bands inside the constants (MC_FermiScan); a case "
-             "= one finished TLC state (stratified seeded selection) replayed on the real StaticCalculator (additive, non-additive, real CumDOS/DOS), "
-             "plus the relations between real results, plus seeded random recorded calls validated by TLC; distinct by input tuple")
-    rep.assume("energies, Fermi levels, values, cell volume and factor are exactly representable; no Fermi level of the extended grid equals a group mean energy (NoTie)")
-    import time
-    t = [time.time()]
+             "= one finished TLC state (stratified seeded selection) replayed on the real StaticCalculator (additive, non-additive, rank-1, "
+             "use_factor off, real CumDOS/DOS/Identity), plus the relations between real results, plus seeded random recorded calls validated by "
+             "TLC, plus the six relations of one real run; distinct by input tuple")
+    rep.assume("energies, Fermi levels, values, cell volume and factor are exactly representable; no Fermi level of the extended grid equals a group "
+               "mean energy (NoTie) or lies inside the span of a group of several bands (NoLevelInsideGroup)")
+    t = [os.times()]
 
     def lap(name):
-        t.append(time.time())
-        rep.part("wall_s_by_part", **{name: round(t[-1] - t[-2], 1)})
-    part_model(rep, thorough, rng)
-    lap("tlc_models_and_replay")
-    part_records(rep, thorough, rng)
-    lap("records")
-    part_numeric(rep, thorough)
-    lap("numeric_only")
-    return rep.finish()
+        t.append(os.times())
+        a, b = t[-2], t[-1]
+        rep.part("cpu_s_by_part", **{name: round((b.user + b.system + b.children_user + b.children_system) - (a.user + a.system + a.children_user + a.children_system), 1)})
+        rep.part("wall_s_by_part", **{name: round(b.elapsed - a.elapsed, 1)})
+
+    def body():
+        part_model(rep, thorough, rng)
+        lap("tlc_models_and_replay")
+        part_kramers_odd(rep)
+        part_records(rep, thorough, rng)
+        lap("records")
+        part_real_run(rep)
+        lap("real_run")
+    return run_parts(rep, body)
